@@ -58,7 +58,9 @@ def cases_for(prop, tier, seed):
         return (gen.fam_malformed(g, "C01-mal", 150 * k) + gen.fam_rawhot(g, "C01-raw", 10) +
                 gen.fam_single_ops(g, "C01-rude", scripts=[g.malformed() for _ in range(6 * (3 if T else 1))], source="rude") +
                 gen.fam_hot(g, "C01-hot", 150 * k, malformed=True, kinds=("plain", "behavior", "replay", "async")) +
-                gen.fam_chains(g, "C01-chain", 150 * k, malformed=True))
+                gen.fam_chains(g, "C01-chain", 150 * k, malformed=True) +
+                # terminals arriving re-entrantly (a callback completes / errors the hot source it is called from)
+                [c for c in gen.fam_reentrant(g, "C01-re", 0) if "hcomplete" in c.split("(react")[1].split("))")[0] or "herror" in c.split("(react")[1].split("))")[0]])
     if prop == "C02":
         return (gen.fam_single_ops(g, "C02-single") + gen.fam_creation(g, "C02-create") +
                 gen.fam_pairs(g, "C02-pair", 4 if T else 1) + gen.fam_chains(g, "C02-chain", 300 * k, depth=(2, 4)))
@@ -89,7 +91,7 @@ SEQ = {
     # prop: (oracle key, projection compared with the model, reference?)
     # reference = the model is a deterministic reference proved equal to the property's spec:
     #             a differing subscriber log IS a failing input
-    "C01": dict(oracle="C01", proj=EV, reference=False),
+    "C01": dict(oracle="C01", proj=("ev", "tap"), reference=False),
     "C02": dict(oracle=None, proj=EV, reference=True),
     "C03": dict(oracle=None, proj=EV, reference=True),
     "C04": dict(oracle=None, proj=("ev", "probe"), reference=True),
